@@ -650,6 +650,14 @@ func (r *Renderer) binop(op token.Token, a, b string) string {
 }
 
 func (r *Renderer) call(c *ssa.CallCommon) string {
+	// copies of a slice carry the same elements in the same order
+	if f := calleeFunc(c); f != nil && len(c.Args) == 1 && f.Pkg() != nil && f.Name() == "Clone" && (f.Pkg().Path() == "slices" || f.Pkg().Path() == "bytes") {
+		return r.E(c.Args[0])
+	}
+	// … and so does a slice whose capacity was adjusted
+	if f := calleeFunc(c); f != nil && len(c.Args) >= 1 && f.Pkg() != nil && f.Pkg().Path() == "slices" && (f.Name() == "Grow" || f.Name() == "Clip") {
+		return r.E(c.Args[0])
+	}
 	if sa := storeAccess(c); sa != nil {
 		var args []string
 		for _, a := range sa.Args {
@@ -729,6 +737,13 @@ func (r *Renderer) fieldAt(a *ssa.Alloc, path string, at ssa.Instruction, origin
 		}
 	}
 	live := r.liveOrigins(at, a, path)
+	// flow-sensitive origin: when several whole assignments exist but only one can be observed here, the field has
+	// the value of that one (not the mixture of all assignments anywhere in the function)
+	if len(live) == 1 && len(r.wholeStores[a]) > 1 {
+		if w, ok := live[0].(*ssa.Store); ok && structCopySource(w) == nil {
+			origin = r.E(w.Val) + path
+		}
+	}
 	if len(cands) == 0 && !r.hasStructCopy(live) {
 		return origin
 	}
